@@ -13,7 +13,7 @@ pub fn dispatch(kind: u32, v: &Val) -> Option<Val> {
     }
 }
 
-/// case: (cfg pattern input dotall reply) ->
+/// case: (cfg pattern input dotall reply whole_line) ->
 ///   (0)                                   the pattern does not build
 ///   (1 multi_line_selected table (status events) oracle_table)
 /// table[p] = () | (a b): find_at(input, p) for p in 0..=len
@@ -28,6 +28,7 @@ fn run_regex(v: &Val) -> Val {
         multiline: true,
         dotall: v.fld(3).b(),
         text: true,
+        whole_line: v.list().len() > 5 && v.fld(5).b(),
         ..RgOpts::default()
     };
     let m = match rgcfg::matcher(&[pattern_c], &o) {
@@ -43,7 +44,9 @@ fn run_regex(v: &Val) -> Val {
     }
     // independent oracle for "look-around is evaluated against the whole input": the regex crate's own
     // find_at on the whole haystack, built with the options rg -U uses
-    let mut rb = regex::bytes::RegexBuilder::new(&pattern);
+    let whole = v.list().len() > 5 && v.fld(5).b();
+    let opat = if whole { format!("(?m:^)(?:{})(?m:$)", pattern) } else { pattern.clone() };
+    let mut rb = regex::bytes::RegexBuilder::new(&opat);
     rb.multi_line(true).unicode(true).dot_matches_new_line(o.dotall);
     if cfg.crlf { rb.crlf(true); }
     let oracle: Vec<Val> = match rb.build() {
